@@ -135,7 +135,7 @@ def meet(a, b):
     return BOT
 
 
-def specialise(g, env0, ev, maywrite, keep_consts=(), nofold_calls=()):
+def specialise(g, env0, ev, maywrite, keep_consts=(), nofold_calls=(), clobber=None):
     """SCCP with the given entry environment {var: const}.  Returns the residual CFG: only executable nodes,
     constants substituted and folded, decided branches removed.  `maywrite(callee, pos)` tells which by-ref
     arguments a call can change."""
@@ -161,6 +161,9 @@ def specialise(g, env0, ev, maywrite, keep_consts=(), nofold_calls=()):
             for i, a in enumerate(s[2]):
                 if a[0] == 'var' and maywrite(s[1], i):
                     out[a[1]] = BOT
+            if clobber is not None:
+                for v in clobber(s[1]):
+                    out[v] = BOT
         elif k == 'branch':
             c = ev.ev(s[1], env)
             if c is not None and c[0] == 'num':
@@ -178,6 +181,11 @@ def specialise(g, env0, ev, maywrite, keep_consts=(), nofold_calls=()):
                                 if out is env:
                                     out = dict(env)
                                 out[a[1]] = BOT
+                        if clobber is not None:
+                            for v in clobber(x[1]):
+                                if out is env:
+                                    out = dict(env)
+                                out[v] = BOT
         return [(x, out) for x in node.succ]
 
     while work:
